@@ -21,3 +21,5 @@ def _bt_attr_ops(ctx):
 
 
 BOUNDED = BOUNDED + [_bt_attr_ops]
+
+FUNCTIONS = FUNCTIONS + [M + '__init__', N + 'assert_valid_input']
